@@ -16,6 +16,8 @@ RULES = {
     "type_add_str": (("DataTypeError",), ("mutate", "filter", "arrange", "summarize", "join_on")),
     "type_sum_str": (("DataTypeError",), ("mutate", "summarize")),
     "type_bad_cast": (("DataTypeError",), ("mutate", "filter", "summarize")),
+    # Bool + Int has no overload (only Bool + Bool); the boolean operand is built in place
+    "type_bool_add": (("DataTypeError",), ("mutate", "filter", "summarize")),
     # an ill-typed expression as the ROOT of a context argument (arrange= / partition_by= / filter=)
     "type_in_ctx": (("DataTypeError",), ("mutate",)),
     # non-boolean predicate
@@ -227,7 +229,7 @@ class RejectsMixin:
         T = self.model.toks
         needs_int = rule in (
             "type_add_str", "type_bad_cast", "pred_nonbool", "window_in_filter", "agg_in_filter", "window_in_summarize",
-            "window_in_on", "nested_agg", "nested_window", "summarize_plain_col", "marker_in_mutate", "marker_nested", "full_join_ineq", "type_in_ctx",
+            "window_in_on", "nested_agg", "nested_window", "summarize_plain_col", "marker_in_mutate", "marker_nested", "full_join_ineq", "type_in_ctx", "type_bool_add",
         )  # fmt: skip
         if (needs_int or rule in ("foreign_ref", "unknown_C")) and step.get("int") is None:
             return "no int column"
@@ -370,6 +372,9 @@ class RejectsMixin:
             return place(bad)
         if rule == "type_bad_cast":
             return place(nested(c_int.cast(pdt.Date())))
+        if rule == "type_bool_add":
+            bad = (c_int > 0) + 1
+            return place(nested(bad) if verb != "summarize" else nested(bad).max())
         if rule == "pred_nonbool":
             bad = c_int + c_int2 if step["nest"] != "top" else c_int
             if verb == "filter":
